@@ -341,6 +341,11 @@ let exec (toks : string list) =
            let ((w1, cfg1), rc) = parse_fp_unreadable strtod_o !fuel_val !w cfg in
            w := w1; put ci cfg1 sp; std "parse_fp" ("rc=" ^ zrc rc)
          | FMissing -> std "parse_fp" "rc=nofile"))
+  | ["parse_fpfail"; c; t] -> with_ctx "parse_fpfail" c (fun ci cfg sp ->
+      (* a stream that delivers the bytes and then reports a read error *)
+      let content = (match ostr_of_hex t with Some s -> s | None -> []) in
+      let ((w1, cfg1), rc) = parse_fp_partial strtod_o !fuel_val !w cfg content in
+      w := w1; put ci cfg1 sp; std "parse_fpfail" ("rc=" ^ zrc rc))
   | ["lex"; t] ->
     let text = (match ostr_of_hex t with Some s -> s | None -> []) in
     let ww = !w in
